@@ -806,7 +806,11 @@ def api_divergence(ctx, n, deep):
             N = int(rng.choice([1, 2, 5, 40, int(rng.randint(3, 300))]))
             seed = int(rng.randint(0, 2 ** 31 - 1))
             mu = float(rng.choice([1.0, -2.5, 0.3, round(float(rng.randn() * 3), 3) or 1.0]))
-            srf = gs.SRF(model, generator="VectorField", mean_velocity=mu, mode_no=N, seed=seed)
+            smp = ["auto", "auto", "inversion", "mcmc"][int(rng_p.randint(4))]       # the `sampling=` option of the generator
+            if smp == "inversion" and not getattr(model, "has_ppf", False):
+                smp = "auto"
+            srf = gs.SRF(model, generator="VectorField", mean_velocity=mu, mode_no=N, seed=seed, **({} if smp == "auto" else {"sampling": smp}))
+            desc = dict(desc, sampling=smp)
         except Exception:
             continue
         X = 12
